@@ -72,14 +72,34 @@ def fld(base, path):
     return base
 
 
-def r1_gate(ctx, E):
+def ctor_fns(ctx, E):
+    """the function(s) that construct the entity: where the aggregate is built, or - when that is a private helper
+    (`from_parts(file, info, headers)`) - the function(s) that call it"""
     sites = aggregates(ctx.facts, E["adt"])
-    fns = sorted({b["name"] for b, i, st in sites if " as std::clone::Clone>" not in b["name"]})
+    fns = {b["name"] for b, i, st in sites if " as std::clone::Clone>" not in b["name"]}
+    for _ in range(3):
+        nxt = set()
+        for fn in fns:
+            f = ctx.facts.fns.get(fn)
+            callers = {b["name"] for b in ctx.facts.bodies.values() if b["kind"] != "promoted" and
+                       any(t["callee"].get("res_path") == fn for i, t in ctx.facts.calls(b))}
+            if f is not None and f.get("vis") != "Public" and callers:
+                nxt |= callers
+            else:
+                nxt.add(fn)
+        if nxt == fns:
+            break
+        fns = nxt
+    return sorted(fns)
+
+
+def r1_gate(ctx, E):
+    fns = ctor_fns(ctx, E)
     if len(fns) != 1:
         ctx.violation("C18.R1", "C18.R1|sites", "the file entity is constructed in %d functions (%s); expected one gated constructor" % (len(fns), fns))
         return None
     ctor = fns[0]
-    outs = [o for o in ctx.px(ctor) if o.kind == "return"]
+    outs = [o for o in ctx.px(ctor, inline=helper_inline(ctx, own=(E["adt"],)), key="helpers") if o.kind == "return"]
     n = 0
     for o in outs:
         v = o.value
@@ -413,8 +433,7 @@ def headers_complete(ctx, rule):
         return
     hf = hf[0]
     # construction: the field is the parameter itself
-    sites = aggregates(ctx.facts, E["adt"])
-    fns = sorted({b["name"] for b, i, st in sites if " as std::clone::Clone>" not in b["name"]})
+    fns = ctor_fns(ctx, E)
     nrow = 0
     for ctor in fns:
         b = ctx.facts.bodies[ctor]
